@@ -294,16 +294,27 @@ def initial_markings(draw, doc, version, usable, max_granular=3):
     if usable and draw(st.booleans()):
         gms = []
         used = set()
+        dup = draw(st.integers(0, 3)) == 0
         for _ in range(draw(st.integers(1, max_granular))):
             sels = sorted(picks(draw, usable, 1, 3))
             if version == "2.1" and draw(st.integers(0, 3)) == 0:
                 mk = ("lang", pick(draw, LANGS))
             else:
                 mk = ("marking_ref", pick(draw, MARKING_IDS))
-            sels = [s for s in sels if (s, mk[1]) not in used]      # no duplicate (selector, marking) pairs in the input
+            if not dup:
+                sels = [s for s in sels if (s, mk[1]) not in used]      # no duplicate (selector, marking) pairs in the input
             used.update((s, mk[1]) for s in sels)
             if sels:
                 gms.append({mk[0]: mk[1], "selectors": sels})
+        if dup and gms:
+            # a legal document that is not in the library's compressed normal form: the same (selector, marking) pair twice,
+            # as a second entry with an overlapping selector list or as a selector listed twice in one entry
+            g = gms[draw(st.integers(0, len(gms) - 1))]
+            if draw(st.booleans()):
+                extra = sorted(set(picks(draw, usable, 0, 2)) | {g["selectors"][0]})
+                gms.insert(draw(st.integers(0, len(gms))), dict(g, selectors=extra))
+            else:
+                g["selectors"] = g["selectors"] + [g["selectors"][draw(st.integers(0, len(g["selectors"]) - 1))]]
         if gms:
             doc["granular_markings"] = gms
     return doc
